@@ -27,7 +27,8 @@ def main():
     from pydap.model import BaseType, DatasetType, GridType, SequenceType, StructureType
 
     ds = DatasetType("d", title="t")
-    ds["x"] = BaseType("x", np.arange(10, dtype="i4"))
+    # an attribute that is not ASCII (a unit like this is common): the DAS is still an answer that can be read to its end
+    ds["x"] = BaseType("x", np.arange(10, dtype="i4"), units="\u00b0C", long_name="temp\u00e9rature")
     ds["f"] = BaseType("f", np.arange(12, dtype="f8").reshape(3, 4) / 3)
     ds["s"] = BaseType("s", np.array(["ab", "c", ""]))
     ds["b"] = BaseType("b", np.array(7, dtype="u1"))
